@@ -154,6 +154,16 @@ CHECKS = {
         note=TRUSTED + " One genuine deviation is recorded in known_findings.jsonl (ReaderFunc zeroes the whole destination frame by design). Error-returning inputs are not part of the statement and not driven.",
         design_ref="§5 C17",
     ),
+    "C12": dict(
+        category="model_checking", engine="vsched",
+        technique="explicit enumeration of all run/scan/reuse/discard/kill histories up to a depth on both executors (fresh session per history) + controlled-scheduler exploration of concurrent scan/run/discard on the instrumented local session",
+        text=("Layer H: every history up to depth 4 (quick) / 5 (thorough) over {Run(f), Scan(r), Run(Map over r), Run(Map-then-Reduce over r), Run(Reduce directly over r), Discard(r), Kill(machine k)} on 1-shard, 2-shard and post-shuffle source programs, "
+              "on the local executor and on a verifsystem cluster, each replayed in a fresh session in child processes; states = task states of every live result + machine liveness. Oracle: every successful use observes the rows of the first "
+              "evaluation; a Func over a discarded/lost result succeeds by recomputing; a direct scan of a result whose outputs are gone delivers all rows or a correct prefix then an error; no hang. Layer S (sibling binary, flavour sched): "
+              "Scan||Scan, Scan||Discard, Run(g,r)||Discard, Run(g,r)||Run(h,r)||Discard, Run||Scan||Discard on the real instrumented local session under the vsched scheduler, all schedules with <=2 (quick, budgeted) / 3 deviations."),
+        note=TRUSTED + " vsched assumptions as for C03. Inside one cluster history goroutine timing is not controlled (a signature is reported only if its simplest history reproduces 3/3 times in fresh processes); concurrent distributed histories run free.",
+        design_ref="§5 C12",
+    ),
 }
 
 NOT_YET = "check designed in DESIGN.md §5 but not yet built/validated in this tree; not claimed"
